@@ -14,6 +14,7 @@ static bool setupTimeDiffers(const SolverCfg& a, const SolverCfg& b)
         s->max_its = s->norm = 0;
         s->abs_tol = s->rel_tol = 0;
         s->fmg_its = s->fmg_cycle = 0;
+        s->verbose = 0;
     }
     return x.sig() != y.sig();
 }
@@ -50,6 +51,7 @@ static SolveStats observe(GMGPolar& s, const SolverCfg& cfg)
 static Outcome runCase(const KV& c)
 {
     Outcome o;
+    StdoutSilencer quiet(true);
     const int rounds = (int)c.getI("rounds");
     std::vector<SolverCfg> cfgs;
     for (int k = 0; k < rounds; k++)
@@ -277,6 +279,10 @@ static KV genCase()
             if (k > 0) {
                 if (rint(0, 3) == 0)
                     s.dirbc = rbool();
+                if (rint(0, 3) == 0)
+                    s.verbose = rweighted({2, 1, 1});
+                if (rint(0, 7) == 0)
+                    s.grid_kind = rint(0, 5); // a grid loaded from files (or back to the parametric one)
                 if (rint(0, 3) == 0)
                     s.threads = rpick({1, 2}); // more threads: reductions are combined in arrival order, not bit-reproducible
                 if (rint(0, 3) == 0)
